@@ -45,8 +45,8 @@ func (e *env) ctrlRef(xr string) []any {
 	return []any{map[string]any{"apiVersion": "ex.org/v1", "kind": "XThing", "name": xr, "uid": sim.Str(o, "metadata", "uid"), "controller": true, "blockOwnerDeletion": true}}
 }
 
-func resMap(r resSpec) map[string]any {
-	m := map[string]any{"apiVersion": thingGroup + "/" + r.Version, "kind": "Thing"}
+func resMap(grp string, r resSpec) map[string]any {
+	m := map[string]any{"apiVersion": apiV(grp, r.Version), "kind": "Thing"}
 	if r.Ref != "" {
 		m["resourceRef"] = map[string]any{"name": r.Ref}
 	} else {
@@ -65,9 +65,9 @@ func resMap(r resSpec) map[string]any {
 }
 
 func (e *env) usageObj(us usageSpec) map[string]any {
-	spec := map[string]any{"of": resMap(us.Of)}
+	spec := map[string]any{"of": resMap(e.grp, us.Of)}
 	if us.By != nil {
-		spec["by"] = resMap(*us.By)
+		spec["by"] = resMap(e.grp, *us.By)
 	} else {
 		spec["reason"] = "do not delete"
 	}
@@ -89,7 +89,7 @@ func (e *env) thingObj(t thingSpec) map[string]any {
 	if t.Owner != "" {
 		md["ownerReferences"] = e.ctrlRef(t.Owner)
 	}
-	return map[string]any{"apiVersion": thingGroup + "/" + t.Version, "kind": "Thing", "metadata": md, "spec": map[string]any{"v": "1"}}
+	return map[string]any{"apiVersion": apiV(e.grp, t.Version), "kind": "Thing", "metadata": md, "spec": map[string]any{"v": "1"}}
 }
 
 func (e *env) seedXRs() {
@@ -141,7 +141,7 @@ func (e *env) do(c *sim.Client, o op) error {
 			u.SetAPIVersion(usageGroup + "/" + o.Version)
 			u.SetKind("Usage")
 		} else {
-			u.SetAPIVersion(thingGroup + "/" + o.Version)
+			u.SetAPIVersion(apiV(e.grp, o.Version))
 			u.SetKind("Thing")
 		}
 		u.SetName(o.Name)
@@ -171,6 +171,9 @@ type scenario struct {
 	Name   string
 	Things []thingSpec
 	Steps  []step
+	// Core: the Thing kind lives in the core API group
+	Core          bool
+	faultFreeOnly bool
 }
 
 func sOp(o op) step            { return step{Kind: "op", Op: o} }
@@ -302,12 +305,14 @@ type plan struct {
 	GCRounds int            `json:"gcRounds"`
 	Chooser  string         `json:"chooser"`
 	Stick    float64        `json:"stick"`
+	Core     bool           `json:"coreGroup,omitempty"` // the Thing kind lives in the core API group
 }
 
 func pick[T any](r *rand.Rand, l []T) T { return l[r.IntN(len(l))] }
 
 func genPlan(r *rand.Rand) *plan {
 	p := &plan{Things: append([]thingSpec(nil), baseThings...), PreRec: map[string]int{}, Rounds: map[string]int{}}
+	p.Core = r.IntN(4) == 0
 	vers := []string{"v1", "v2"}
 	nU := 1 + r.IntN(3)
 	var later []usageSpec
